@@ -56,6 +56,7 @@ def export_all(sd_base, wd, tier, timeout, only=None):
     for p in sorted(glob.glob(os.path.join(sd, "out", "s_*.json")), key=lambda q: int(q.split("_")[-1].split(".")[0])):
         s = json.load(open(p))
         s["cfg"] = harness_cfg(s["chain"])
+        s["cfg"]["min_swap_msat"] = s.get("min_swap_msat", 100000000)
         scheds.append(s)
     shutil.rmtree(sd, ignore_errors=True)
     res["ncfg"] = ncfg
@@ -75,7 +76,23 @@ def closure_of(s):
     steps = [dict(a="recover"), dict(a="tick", m=10), dict(a="htlc", sid="s1", kind="settle"), dict(a="htlc", sid="s2", kind="settle"), blk(3, True), blk(w, False),
              blk(csv + 1, True), dict(a="restart"), dict(a="tick", m=10), blk(3, True), blk(csv + 1, True), dict(a="tick", m=10), dict(a="restart"),
              blk(3, True), blk(csv + 1, True)]
-    return dict(name=s["name"] + ":closed", cfg=s["cfg"], steps=list(s["steps"]) + steps, closed=True, stored_version=s.get("stored_version", ""))
+    return dict(name=s["name"] + ":closed", cfg=s["cfg"], steps=list(s["steps"]) + steps, closed=True, closure="full", stored_version=s.get("stored_version", ""))
+
+
+def down_at_end(s):
+    """the node may be down at the end of the schedule: a crash (or stop) with no restart after it"""
+    last_crash = max([i for i, st in enumerate(s["steps"]) if st.get("crash") or st["a"] == "stop"] or [-1])
+    return last_crash >= 0 and not any(st["a"] in ("restart", "start") and not st.get("crash") for st in s["steps"][last_crash + 1:])
+
+
+def closure_norestart(s):
+    """C07c: the chain advances past the CSV while the peer is silent and the node keeps running (no restart heals anything)."""
+    chain = s["cfg"]["chain"]
+    csv = 1008 if chain == "btc" else 10080
+    blk = lambda n, incl: dict(a="block", chain=chain, n=n, incl=(["all"] if incl else []))
+    steps = [dict(a="recover"), dict(a="tick", m=10), blk(3, True), blk(csv + 1, True), blk(1, False)]
+    return dict(name=s["name"] + ":closed-norestart", cfg=s["cfg"], steps=list(s["steps"]) + steps, closed=False, closure="norestart",
+                stored_version=s.get("stored_version", ""))
 
 
 def run_all(tier):
@@ -124,7 +141,10 @@ def run_all(tier):
         # the peer stays silent, time passes, pending HTLCs resolve, the chain advances past every deadline, services succeed,
         # the node is restarted once - after which every swap must be terminal and its channel released (checked at `end`).
         nmodel = len(scheds)
-        scheds = scheds + [closure_of(s) for s in scheds if "upgrade" not in s["name"]]   # a refused upgrade keeps the node down by design (C29)
+        base = scheds
+        scheds = base + [closure_of(s) for s in base if "upgrade" not in s["name"]]   # a refused upgrade keeps the node down by design (C29)
+        scheds += [closure_norestart(s) for s in base if "upgrade" not in s["name"] and ("in_sender" in s["name"] or "out_receiver" in s["name"] or "mixed" in s["name"])
+                   and not any(st.get("crash") or st.get("faults") for st in s["steps"])]   # failure-free prefixes only: a lost store write / callback is healed only by a restart
         sp = os.path.join(wd, "schedules.ndjson")
         with open(sp, "w") as f:
             for s in scheds:
